@@ -78,7 +78,16 @@ class GenRec(H.Recorder):
 def files(wd):
     with open(os.path.join(wd, "infretis_data.txt"), "rb") as f:
         data = f.read()
-    return data, norm_restart(os.path.join(wd, "restart.toml"))
+    # the stored order / energy files of the live paths (traj.txt names files after the process id)
+    import tomli
+    with open(os.path.join(wd, "restart.toml"), "rb") as f:
+        active = tomli.load(f)["current"]["active"]
+    stored = []
+    for pn in active:
+        for txt in ("order.txt", "energy.txt"):
+            p = os.path.join(wd, "load", str(pn), txt)
+            stored.append((pn, txt, open(p, "rb").read() if os.path.exists(p) else None))
+    return data, norm_restart(os.path.join(wd, "restart.toml")), stored
 
 
 def case_run(case):
@@ -90,7 +99,8 @@ def case_run(case):
     try:
         # scope of the property: the documented loss of the 'initial path' marker ('ld' -> 're') at a
         # restart is kept out by allowmaxlength = true
-        kw = dict(n_intf=n_intf, moves=moves, workers=W, steps=N, seed=seed, cap=cap, allowmaxlength=True)
+        kw = dict(n_intf=n_intf, moves=moves, workers=W, steps=N, seed=seed, cap=cap, allowmaxlength=True,
+                  n_order=1 + (seed + N) % 3)      # 1-3 order-parameter values per frame
         H.write_setup(wd0, **kw)
         r0 = H.run_sim(wd0)
         if r0["status"] != "done":
@@ -150,9 +160,18 @@ def case_run(case):
                 out["problems"].append(f"infretis_data.txt of the run restarted at {splits} differs from the straight run")
             if got[1] != ref[1]:
                 out["problems"].append(f"restart.toml of the run restarted at {splits} differs from the straight run")
+            if got[2] != ref[2]:
+                bad = [(a[0], a[1]) for a, b in zip(got[2], ref[2]) if a != b]
+                out["problems"].append(f"stored order/energy files of live paths {bad[:3]} of the run restarted at {splits} differ from the straight run")
     except Exception as e:  # noqa: BLE001
         import traceback
-        out["problems"].append(f"case crashed: {e!r} {traceback.format_exc()[-800:]}")
+        tb = traceback.format_exc()
+        frames = [ln for ln in tb.splitlines() if ln.strip().startswith("File ") and ("/infretis/" in ln or "/verif/py" in ln)]
+        if frames and "/infretis/" in frames[-1]:
+            # the program itself died (in a run that the straight run completed): the restart does not reproduce the run
+            out["problems"].append(f"a run of the chain {splits} died inside the program with {e!r} ({frames[-1].strip()[:160]})")
+        else:
+            out["problems"].append(f"case crashed: {e!r} {tb[-800:]}")
     finally:
         shutil.rmtree(wd0, ignore_errors=True)
         shutil.rmtree(wd1, ignore_errors=True)
